@@ -50,6 +50,7 @@ breaking('refix-parse_simple_pauli', {'C19': 'Q1'}, patch_reverse='fix_c93f031.d
 breaking('refix-so3_to_angle', {'C15': 'MS1'}, patch_reverse='fix_f005967.diff')
 breaking('refix-rank-one-detector', {'C20': 'T1'}, patch_reverse='fix_4bf16b8.diff')
 breaking('refix-to_ball', {'C01': 'RB1'}, patch_reverse='fix_24b05d5.diff')
+breaking('refix-maximally_coherent_state', {'C18': 'RD1'}, patch_reverse='fix_b540f01.diff')
 breaking('refix-get_gme_2qubit', {'C13': 'F2', 'C05': 'F2'}, patch_reverse='fix_78cd862.diff')
 
 # ---- textual breaking edits, one per rule family
